@@ -35,7 +35,7 @@ var stakable = []string{"ukex", "ubtc"}
 func newEnv(seed uint64, dist hx.Counter) *env {
 	e := &env{r: hx.NewRng(seed), acc: map[string]int64{}, accName: map[int64]string{}, den: map[string]int64{}, denName: map[int64]string{},
 		spools: map[string]int64{}, dapps: map[string]int64{}, colls: map[string]int64{}, recs: map[string]int64{}, dist: dist,
-		shareSet: map[int64][2]int64{}}
+		shareSet: map[int64][2]int64{}, bk: 1}
 	// the default UBI record alone exceeds the default hard cap, so no UBI proposal could pass: the cap is raised in the genesis
 	e.c = abci.NewChain(abci.Config{Accounts: NACC, Validators: 2, Seed: 7, Gov: func(g *govtypes.GenesisState) { g.NetworkProperties.UbiHardcap = 60_000_000 }})
 	for name, id := range moduleIDs {
@@ -84,6 +84,22 @@ func (e *env) setup() {
 				{Denom: "ubtc", Weight: sdk.NewDec(2), Amount: sdk.ZeroInt(), Deposits: true, Withdraws: true, Swaps: true},
 				{Denom: "xeth", Weight: sdk.NewDec(1), Amount: sdk.ZeroInt(), Deposits: true, Withdraws: true, Swaps: true}}})
 	}, nil, nil, map[string]interface{}{"what": "basket 1 (ubtc x2, xeth x1)"})
+	e.direct("setup", func(ctx sdk.Context) error {
+		return app.BasketKeeper.CreateBasket(ctx, baskettypes.Basket{Id: 2, Suffix: "eur", Description: "c04 second basket", Amount: sdk.ZeroInt(),
+			SwapFee: sdk.NewDecWithPrec(2, 2), SlipppageFeeMin: sdk.NewDecWithPrec(1, 2), TokensCap: sdk.OneDec(), LimitsPeriod: 3600,
+			MintsMin: sdk.OneInt(), MintsMax: big, BurnsMin: sdk.OneInt(), BurnsMax: big, SwapsMin: sdk.OneInt(), SwapsMax: big, Surplus: []sdk.Coin{},
+			Tokens: []baskettypes.BasketToken{
+				{Denom: "ubtc", Weight: sdk.NewDec(1), Amount: sdk.ZeroInt(), Deposits: true, Withdraws: true, Swaps: true},
+				{Denom: "xeth", Weight: sdk.NewDec(3), Amount: sdk.ZeroInt(), Deposits: true, Withdraws: true, Swaps: true}}})
+	}, nil, nil, map[string]interface{}{"what": "basket 2 (ubtc x1, xeth x3)"})
+	// a pool whose beneficiary lists overlap: a3 twice as account, a0 as account AND through role sudo, the role twice
+	mk2 := spendingtypes.NewMsgCreateSpendingPool("sp2", 0, 0, sdk.NewDecCoins(sdk.NewDecCoinFromDec("ukex", sdk.NewDecWithPrec(2, 1))),
+		sdk.NewDecWithPrec(33, 2), 300, 300, spendingtypes.PermInfo{OwnerAccounts: []string{e.addr(2), e.addr(2)}},
+		spendingtypes.WeightedPermInfo{Accounts: []spendingtypes.WeightedAccount{{Account: e.addr(3), Weight: sdk.OneDec()}, {Account: e.addr(3), Weight: sdk.NewDec(3)}, {Account: e.addr(0), Weight: sdk.NewDec(2)}},
+			Roles: []spendingtypes.WeightedRole{{Role: uint64(govtypes.RoleSudo), Weight: sdk.OneDec()}, {Role: uint64(govtypes.RoleSudo), Weight: sdk.NewDec(4)}}},
+		e.accAddr(2), false, 0)
+	mk2.ClaimExpiry = 10_000_000
+	e.tx("setup", 2, []sdk.Msg{mk2}, nil, map[string]interface{}{"what": "spending pool sp2 (overlapping beneficiary lists)"})
 	mk := spendingtypes.NewMsgCreateSpendingPool("sp1", 0, 0, sdk.NewDecCoins(sdk.NewDecCoinFromDec("ukex", sdk.NewDecWithPrec(5, 1)), sdk.NewDecCoinFromDec("ubtc", sdk.NewDecWithPrec(1, 1))),
 		sdk.NewDecWithPrec(33, 2), 300, 300, spendingtypes.PermInfo{OwnerAccounts: []string{e.addr(2)}},
 		spendingtypes.WeightedPermInfo{Accounts: []spendingtypes.WeightedAccount{{Account: e.addr(3), Weight: sdk.OneDec()}, {Account: e.addr(4), Weight: sdk.NewDec(2)}},
@@ -110,12 +126,15 @@ func (e *env) setup() {
 	e.delegate(3, 0, "ukex", 50_000_000_000)
 	cm := collectivestypes.NewMsgCreateCollective(e.accAddr(3), "coll1", "c04", coins("v1/ukex", 20_000_000_000),
 		collectivestypes.DepositWhitelist{Any: true}, collectivestypes.OwnersWhitelist{Accounts: []string{e.addr(3)}},
-		[]collectivestypes.WeightedSpendingPool{{Name: "sp1", Weight: sdk.OneDec()}}, 0, 14400, 0, sdk.NewDecWithPrec(33, 2), 300, 300)
+		[]collectivestypes.WeightedSpendingPool{{Name: "sp1", Weight: sdk.NewDecWithPrec(5, 1)}, {Name: "sp2", Weight: sdk.NewDecWithPrec(25, 2)}, {Name: "sp1", Weight: sdk.NewDecWithPrec(25, 2)}}, 0, 14400, 0, sdk.NewDecWithPrec(33, 2), 300, 300)
 	e.spDeposit(2, "sp1", "ukex", 40_000_000_000)
 	e.spDeposit(2, "sp1", "ubtc", 4_000_000_000)
 	e.spRegister(3, "sp1")
 	e.spRegister(4, "sp1")
 	e.spRegister(0, "sp1")
+	e.spDeposit(2, "sp2", "ukex", 30_000_000_000)
+	e.spRegister(3, "sp2")
+	e.spRegister(0, "sp2")
 	e.tx("coll_create", 3, []sdk.Msg{cm}, nil, map[string]interface{}{"collective": "coll1"})
 	e.end()
 }
@@ -232,7 +251,7 @@ func (e *env) basketMint(u int, den string, amt int64) bool { return e.basketMin
 // MintBasketToken with the basket's own weights: the model computes the minted amount
 func (e *env) basketMintCoins(u int, deposit sdk.Coins) bool {
 	var model []string
-	if b, err := e.c.App.BasketKeeper.GetBasketById(e.ctx(), 1); err == nil {
+	if b, err := e.c.App.BasketKeeper.GetBasketById(e.ctx(), e.bk); err == nil {
 		rates, _ := b.RatesAndIndexes()
 		var deps []string
 		okAll := true
@@ -244,31 +263,46 @@ func (e *env) basketMintCoins(u int, deposit sdk.Coins) bool {
 			}
 		}
 		if okAll {
-			model = []string{fmt.Sprintf("BkMintC %d 1 %s", 100+u, hx.List(deps))}
+			model = []string{fmt.Sprintf("BkMintC %d %d %s", 100+u, e.bk, hx.List(deps))}
 		}
 	}
-	return e.tx("basket_mint", u, []sdk.Msg{baskettypes.NewMsgBasketTokenMint(e.accAddr(u), 1, deposit)}, model,
-		map[string]interface{}{"account": u, "deposit": deposit.String()})
+	return e.tx("basket_mint", u, []sdk.Msg{baskettypes.NewMsgBasketTokenMint(e.accAddr(u), e.bk, deposit)}, model,
+		map[string]interface{}{"account": u, "basket": e.bk, "deposit": fmt.Sprint([]sdk.Coin(deposit))})
 }
 
 // BurnBasketToken: the model computes the portion (burn / supply after the burn) and every withdrawal
 func (e *env) basketBurn(u int, amt int64) bool {
 	var model []string
-	if b, err := e.c.App.BasketKeeper.GetBasketById(e.ctx(), 1); err == nil {
+	if b, err := e.c.App.BasketKeeper.GetBasketById(e.ctx(), e.bk); err == nil {
 		var ds []string
 		for _, t := range b.Tokens {
 			if t.Withdraws {
 				ds = append(ds, fmt.Sprint(e.denID(t.Denom)))
 			}
 		}
-		model = []string{fmt.Sprintf("BkBurnC %d 1 %d %s", 100+u, amt, hx.List(ds))}
+		model = []string{fmt.Sprintf("BkBurnC %d %d %d %s", 100+u, e.bk, amt, hx.List(ds))}
 	}
-	return e.tx("basket_burn", u, []sdk.Msg{baskettypes.NewMsgBasketTokenBurn(e.accAddr(u), 1, coin("b1/usd", amt))}, model,
-		map[string]interface{}{"account": u, "burn": amt})
+	return e.tx("basket_burn", u, []sdk.Msg{baskettypes.NewMsgBasketTokenBurn(e.accAddr(u), e.bk, coin(e.basketDenom(), amt))}, model,
+		map[string]interface{}{"account": u, "basket": e.bk, "burn": amt})
+}
+func (e *env) basketDenom() string {
+	if e.bk == 2 {
+		return "b2/eur"
+	}
+	return "b1/usd"
 }
 func (e *env) basketSwap(u int, in string, amt int64, out string) bool {
-	return e.tx("basket_swap", u, []sdk.Msg{baskettypes.NewMsgBasketTokenSwap(e.accAddr(u), 1, []baskettypes.SwapPair{{InAmount: coin(in, amt), OutToken: out}})}, nil,
-		map[string]interface{}{"account": u, "in": coin(in, amt).String(), "out": out})
+	return e.basketSwapPairs(u, []baskettypes.SwapPair{{InAmount: coin(in, amt), OutToken: out}})
+}
+
+// the Pairs list may repeat a pair or mix directions
+func (e *env) basketSwapPairs(u int, pairs []baskettypes.SwapPair) bool {
+	var desc []string
+	for _, p := range pairs {
+		desc = append(desc, p.InAmount.String()+"->"+p.OutToken)
+	}
+	return e.tx("basket_swap", u, []sdk.Msg{baskettypes.NewMsgBasketTokenSwap(e.accAddr(u), e.bk, pairs)}, nil,
+		map[string]interface{}{"account": u, "basket": e.bk, "pairs": desc})
 }
 
 func (e *env) spDeposit(u int, pool string, den string, amt int64) bool {
@@ -344,7 +378,7 @@ func (e *env) proposal(kind string, content govtypes.Content, model []string, ar
 }
 
 // SpendingPoolWithdraw: each listed beneficiary is paid `amounts`
-func (e *env) withdrawProposal(pool string, bens []int, amounts sdk.Coins) bool {
+func (e *env) withdrawProposal(pool string, bens []int, amounts []sdk.Coin) bool {
 	var addrs, vs, am []string
 	for _, b := range bens {
 		addrs = append(addrs, e.addr(b))
@@ -358,7 +392,7 @@ func (e *env) withdrawProposal(pool string, bens []int, amounts sdk.Coins) bool 
 		model = []string{fmt.Sprintf("SpWithdrawProp %d %s %s", idx, hx.List(vs), hx.List(am))}
 	}
 	return e.proposal("withdraw_proposal", spendingtypes.NewSpendingPoolWithdrawProposal(pool, addrs, amounts), model,
-		map[string]interface{}{"pool": pool, "beneficiaries": bens, "amounts": amounts.String()})
+		map[string]interface{}{"pool": pool, "beneficiaries": bens, "amounts": fmt.Sprint(amounts)})
 }
 
 // SpendingPoolDistribution: every beneficiary (accounts, then holders of the beneficiary roles) claims
@@ -399,21 +433,32 @@ func (e *env) distributionProposal(pool string) bool {
 	return e.proposal("distribution_proposal", spendingtypes.NewSpendingPoolDistributionProposal(pool), model, map[string]interface{}{"pool": pool})
 }
 
-func (e *env) surplusProposal(target int) bool {
+// BasketWithdrawSurplus for a LIST of basket ids (repetitions, unknown ids and the empty list included): the model pays,
+// per listed occurrence, whatever surplus the basket records at that moment
+func (e *env) surplusProposal(target int, ids []uint64) bool {
 	ctx := e.ctx()
 	var model []string
-	if b, err := e.c.App.BasketKeeper.GetBasketById(ctx, 1); err == nil {
-		basketAcc := authtypes.NewModuleAddress("basket")
-		if e.c.App.MultiStakingKeeper.GetDelegatorRewards(ctx, basketAcc).Empty() {
-			for _, c := range b.Surplus {
-				model = append(model, fmt.Sprintf("BkWithdrawSurplus 1 %d %d", 100+target, e.denID(c.Denom)))
+	known := true
+	basketAcc := authtypes.NewModuleAddress("basket")
+	if e.c.App.MultiStakingKeeper.GetDelegatorRewards(ctx, basketAcc).Empty() {
+		for _, id := range ids {
+			b, err := e.c.App.BasketKeeper.GetBasketById(ctx, id)
+			if err != nil {
+				known = false
+				break
 			}
-			if model == nil {
-				model = []string{fmt.Sprintf("BkWithdrawSurplus 1 %d 1", 100+target)}
+			for _, c := range b.Surplus {
+				model = append(model, fmt.Sprintf("BkWithdrawSurplus %d %d %d", id, 100+target, e.denID(c.Denom)))
 			}
 		}
+		if known && model == nil {
+			model = []string{fmt.Sprintf("BkWithdrawSurplus 1 %d 1", 100+target)}
+		}
 	}
-	return e.proposal("surplus_proposal", baskettypes.NewProposalBasketWithdrawSurplus([]uint64{1}, e.addr(target)), model, map[string]interface{}{"target": target})
+	if !known {
+		model = nil
+	}
+	return e.proposal("surplus_proposal", baskettypes.NewProposalBasketWithdrawSurplus(ids, e.addr(target)), model, map[string]interface{}{"target": target, "basket_ids": ids})
 }
 
 func (e *env) collSendDonation(target int, amounts sdk.Coins) bool {
@@ -434,9 +479,10 @@ func (e *env) tipRequest(u, verifier int, tip int64) bool {
 	for _, r := range e.c.App.CustomGovKeeper.GetIdRecordsByAddress(ctx, e.accAddr(u)) {
 		ids = append(ids, r.Id)
 	}
-	if len(ids) > 1 {
+	if len(ids) > 1 && e.r.Bool() {
 		ids = ids[:1]
 	}
+	ids = e.perturbIDs(ids) // record ids: repeated, or none
 	return e.tx("tip_request", u, []sdk.Msg{govtypes.NewMsgRequestIdentityRecordsVerify(e.accAddr(u), e.accAddr(verifier), ids, coin("ukex", tip))},
 		[]string{fmt.Sprintf("TipRequest %d %d 0 %d", 100+u, id, tip)}, map[string]interface{}{"account": u, "verifier": verifier, "tip": tip})
 }
@@ -498,3 +544,50 @@ func (e *env) l2MintIssue(u int, den string, amt int64) bool {
 
 var _ = tokenstypes.ModuleName
 var _ = os.Exit
+
+// ---------------------------------------------------------------- list-valued fields: repetitions, overlaps, empty
+// Every list the monitor puts into a message or a proposal goes through one of these.
+func (e *env) perturbInts(xs []int) []int {
+	r := e.r
+	switch r.Intn(10) {
+	case 0:
+		if len(xs) > 0 {
+			return append(append([]int{}, xs...), xs[r.Intn(len(xs))]) // one element twice
+		}
+	case 1:
+		return append(append([]int{}, xs...), xs...) // the whole list twice
+	case 2:
+		return []int{}
+	case 3:
+		if len(xs) > 0 {
+			return []int{xs[0], xs[0], xs[0]}
+		}
+	}
+	return xs
+}
+func (e *env) perturbIDs(xs []uint64) []uint64 {
+	var is []int
+	for _, x := range xs {
+		is = append(is, int(x))
+	}
+	out := []uint64{}
+	for _, x := range e.perturbInts(is) {
+		out = append(out, uint64(x))
+	}
+	return out
+}
+
+// a coin list that may repeat a denomination or be empty (sdk.Coins does not allow it: such a message must be rejected
+// or fail as a whole, and nothing may move)
+func (e *env) perturbCoins(cs sdk.Coins) sdk.Coins {
+	r := e.r
+	switch r.Intn(14) {
+	case 0:
+		if len(cs) > 0 {
+			return append(append(sdk.Coins{}, cs...), cs[r.Intn(len(cs))])
+		}
+	case 1:
+		return sdk.Coins{}
+	}
+	return cs
+}
